@@ -130,7 +130,3 @@ def run(ctx: core.Ctx) -> core.Report:
 def tok_hdr(m):
     return canon(m)
 
-
-def replay(ctx, data):
-    print(data)
-    return 0
